@@ -26,7 +26,8 @@ WALL = {"quick": 1200, "thorough": 10800}
 MAX_TIMEOUTS = {"quick": 1, "thorough": 20}
 REQUIRED = {"placements_checked": 1500, "placements_wrapped": 150, "start_on_grid_checked": 150,
             "placements_with_force": 100, "rejected_trials": 50, "noncubic_runs": 10, "user_grid_runs": 5,
-            "density_runs": 5, "ring_closures": 500, "systems_with_tree_consolidation": 15}
+            "density_runs": 5, "ring_closures": 500, "systems_with_tree_consolidation": 15,
+            "systems_with_two_residues_under_one_name": 40}
 
 
 def plan(tier, seed):
@@ -52,6 +53,9 @@ def run_case(cid, rng, workdir):
         sysd = T.gen_system(rng, max_types=2 if edge else 3, max_res=6 if edge else rng.choice([8, 8, 16]), max_count=2 if edge else 3)
         if any(len(mt["res"]) > 10 for mt in T.expand(sysd)):
             bump(res, "systems_with_tree_consolidation")
+    if rng.random() < 0.3 and T.alias_residues(rng, sysd):
+        # two different residues under one residue name (end groups with extra beads): sizes go by residue, not by name
+        bump(res, "systems_with_two_residues_under_one_name")
     text = T.render_top(sysd)
     with open(os.path.join(workdir, "s.top"), "w") as fh:
         fh.write(text)
